@@ -36,7 +36,11 @@ fn judge(case: &Case<Program>, rep: &mut Report) {
     rep.count(&format!("layout_{layout}"), 1);
     let mut expected_defs: Vec<(String, Option<String>)> = vec![]; // (item stem, variant stem for helpers)
     for it in &case.model.items {
-        let Some(st) = first_stem(&it.ident) else { continue };
+        // the twins below share their Rust identifier and are told apart by their serde names
+        let Some(st) = first_stem(it.rename.as_deref().unwrap_or(&it.ident)) else { continue };
+        if it.rename.is_some() {
+            rep.count("same_identifier_twins_checked", 1);
+        }
         rep.eval(1);
         if !it.is_annotated() {
             // decoys: neither the item nor its fields may leave any trace
@@ -237,7 +241,36 @@ pub fn run(ctx: &Ctx) -> (Spec, Report) {
             p.items = (2, 8);
             // one language per program decides which optional features are generated (consts, generic enums)
             let lang = ALL_LANGS[rng.below(6)];
-            let prog = gen_program(rng, &p, Some(lang));
+            let mut prog = gen_program(rng, &p, Some(lang));
+            // a quarter of the programs: two annotated structs with the same Rust identifier in two modules (`v1::Settings`,
+            // `v2::Settings`), kept apart by different serde names - two items, two definitions
+            if rng.chance(1, 4) {
+                if let Some(ai) = prog.items.iter().position(|i| i.is_annotated() && i.generics.is_empty() && matches!(i.kind, Kind::Struct(_))) {
+                    let mut stems = crate::gen::Stems::default();
+                    let mut fresh = |rng: &mut Rng, prog: &Program| loop {
+                        let s = stems.fresh(rng);
+                        if !prog.stems.contains_key(&s) {
+                            return s;
+                        }
+                    };
+                    let (sa, sb) = (fresh(rng, &prog), fresh(rng, &prog));
+                    let mut b = prog.items[ai].clone();
+                    prog.items[ai].rename = Some(format!("{}TwinA", crate::gen::cap(&sa)));
+                    prog.items[ai].mods = vec!["tw_one".into()];
+                    b.rename = Some(format!("{}TwinB", crate::gen::cap(&sb)));
+                    b.mods = vec!["tw_two".into()];
+                    if let Kind::Struct(fs) = &mut b.kind {
+                        for f in fs.iter_mut() {
+                            let st = fresh(rng, &prog);
+                            f.ident = format!("{st}_b");
+                            f.rename = None;
+                            f.raw = false;
+                        }
+                    }
+                    prog.items.push(b);
+                    prog.items.sort_by(|x, y| x.mods.cmp(&y.mods));
+                }
+            }
             let src = prog.render(rng, &RenderOpts { vary: true, prelude: false, strip_typeshare: false });
             // a third of the files in a layout where no attribute starts its line
             let layout = if rng.chance(1, 3) { rng.range(1, 4) } else { 0 };
@@ -292,7 +325,7 @@ pub fn run(ctx: &Ctx) -> (Spec, Report) {
     }
     let spec = Spec {
         level: "exploration",
-        rule: format!("{n} generated files mixing annotated and un-annotated items at module depth 0-4, #[typeshare] / #[typeshare::typeshare] / with arguments, serde(skip) / typeshare(skip) on random subsets of fields, variants and struct-variant fields, any attribute order, five source layouts (rustfmt-like, attribute behind another attribute or a block comment on the same line, all attributes and the item on one line, CRLF + tabs), x up to 6 languages; definitions and members are attributed to source elements by unique stems and compared with the generator's item list (count, kind, order); decoy and skipped stems are searched over the whole output; plus 'cannot be generated' cells (const / union / DateTime per backend): error or definition, never success without definition; distinct = (language, item kind, module depth, annotation spelling) and (language, struct-variant, has-skipped)"),
+        rule: format!("{n} generated files mixing annotated and un-annotated items at module depth 0-4, a quarter of them with two structs of one Rust identifier in two modules (different serde names), #[typeshare] / #[typeshare::typeshare] / with arguments, serde(skip) / typeshare(skip) on random subsets of fields, variants and struct-variant fields, any attribute order, five source layouts (rustfmt-like, attribute behind another attribute or a block comment on the same line, all attributes and the item on one line, CRLF + tabs), x up to 6 languages; definitions and members are attributed to source elements by unique stems and compared with the generator's item list (count, kind, order); decoy and skipped stems are searched over the whole output; plus 'cannot be generated' cells (const / union / DateTime per backend): error or definition, never success without definition; distinct = (language, item kind, module depth, annotation spelling) and (language, struct-variant, has-skipped)"),
         assumptions: vec!["stems (q + 5 letters, no other 'q' in generated words) identify source elements after case conversion".into()],
         exhaustive: None,
     };
